@@ -999,10 +999,9 @@ class Check:
                 except Exception as e:
                     msg = ('expected %r check to validate target'
                            % getattr(validator, '__name__', None) or ('#%s' % i))
-                    if type(e) is self._ValidationError:
-                        if self.default is not RAISE:
-                            return arg_val(target, self.default, scope)
-                    else:
+                    if self.default is not RAISE:
+                        return arg_val(target, self.default, scope)
+                    if type(e) is not self._ValidationError:
                         msg += ' (got exception: %r)' % e
                     errs.append(msg)
 
